@@ -255,6 +255,35 @@ def run(ctx):
                 ctx.violation("monitor", "donor shortage surfaced as %r" % r["error"], {"case": "no-donor"})
         if r["children_after"] != 0:
             ctx.violation("monitor", "worker alive after the donor-shortage error", {"case": "no-donor"})
+        # a donor shortage that is certain by counting, through BOTH front ends: the caller's minimum cluster size m makes a donor
+        # impossible (2m exceeds the number of stacked points) and a probe run of one round (same seeds) shows that round 0 leaves a
+        # cluster with fewer than two points - so round 1 must ask for a donor and the call must raise the RuntimeError
+        for j, joint_ in enumerate([False, True, True]):
+            lengths_ = [[64], [40, 33], [70]][j]
+            W_ = [2, 3, 1][j]
+            T_ = sum(t - W_ + 1 for t in lengths_)
+            m_ = T_ // 2 + 3 + j
+            cfg_ = dict(BASE, N=2, W=W_, K=3, beta=1e6, m=m_, lengths=lengths_, joint=joint_, data_seed=31 + j, rng_seed=31 + j, regimes=2)
+            probe = run_with_fault(dict(cfg_, limit=1), None)
+            ctx.count("certain-donor-shortage")
+            if probe["result"] is None:
+                continue
+            labs = probe["result"]["point_labels"]
+            flat = [x for l in labs for x in l] if joint_ else labs
+            sizes_ = [sum(1 for x in flat if x == k) for k in range(3)]
+            if min(sizes_) >= 2:
+                continue
+            ctx.mark_nontrivial(("certain-shortage", j))
+            for mp_, procs_ in ((False, 1), (True, 2)):
+                r2 = run_with_fault(dict(cfg_, limit=4), None, mp=mp_, procs=procs_)
+                case_ = {"front_end": "joint" if joint_ else "single", "stacked_points": T_, "min_cluster_size": m_, "sizes_after_round_0": sizes_, "mp": mp_}
+                if r2["result"] is not None:
+                    ctx.violation("monitor", "no cluster can be a donor (2 * %d > %d points) and round 0 leaves cluster sizes %s, yet the %s front end returned a result"
+                                  % (m_, T_, sizes_, case_["front_end"]), {"case": case_})
+                elif not (r2["error"] or "").startswith("RuntimeError") or "donor" not in r2["error"]:
+                    ctx.violation("monitor", "a certain donor shortage surfaced as %r through the %s front end" % (r2["error"], case_["front_end"]), {"case": case_})
+                if r2["children_after"] != 0:
+                    ctx.violation("monitor", "worker alive after the donor-shortage error", {"case": case_})
         # donor shortage at the repopulation entry point: whenever the donors cannot serve every under-populated cluster
         # (capacity sum(floor(size/m) - 1) over clusters with >= 2m points < number of clusters with < 2 points) the call
         # must raise the RuntimeError - for every such size vector with K <= 4, sizes 0..3m+2, m in {1, 2}
